@@ -33,7 +33,7 @@ class FenwickTree:
         """Initialize from values list or size (zeros)."""
         if isinstance(values, int):
             self._n = values
-            self._tree = [0.0] * values
+            self._tree = [0] * values
         else:
             self._n = len(values)
             self._tree = list(values)
@@ -50,7 +50,7 @@ class FenwickTree:
 
     def prefix(self, i: int) -> float:
         """Return sum of elements from index 0 to i (inclusive)."""
-        total = 0.0
+        total = 0
         while i >= 0:
             total += self._tree[i]
             i = (i & (i + 1)) - 1
